@@ -697,7 +697,7 @@ class Explorer(object):
                     key = str(e)
                     self.cut_reasons[key] = self.cut_reasons.get(key, 0) + 1
                     if self.nonfinite == 'violation':
-                        self._violation('non-finite: ' + key, self.model_inputs(), None)
+                        self._violation('non-finite: ' + key, self.model_inputs(), dict(self.detail) if isinstance(self.detail, dict) else None)
                 finally:
                     self.solver.pop()
         finally:
